@@ -364,7 +364,7 @@ class YP(object):
             name = term
             args = []
 
-        remaining_clauses = self._find_predicates(name, len(args))[:]
+        remaining_clauses = self._predicates_store.get((name, len(args)), [])[:]
         i = 0
         while i < len(remaining_clauses):
             clause = remaining_clauses[i]
@@ -386,7 +386,7 @@ class YP(object):
             name = term
             args = []
         remaining_clauses = []
-        for clause in self._find_predicates(name, len(args)):
+        for clause in self._predicates_store.get((name, len(args)), []):
             match = False
             for cut in clause.match(args):
                     match = True
